@@ -47,6 +47,16 @@ CLAIMED = {
         text="Theorem (unroll_flat, with visit_flat for every fuel and every intermediate visit and subroutine call): for every OpenQASM 2 or 3 program, with or without external gates, every statement of the model's unroll output is an include, a register declaration with literal size, a gate call without modifiers (or the single inv of a kept external gate) with literal parameters on literally indexed single qubits, a single-bit measurement, a reset, a single-qubit barrier, a gphase with literal angle, or a conditional on reg[i]==literal / reg==literal whose blocks are flat; proved by induction over the interpreter (40 visitor functions, the expression evaluator, subroutine calls, the fuel knot). Tie: model vs real unroll() on random full-feature programs, every library gate, expressions used as parameters; on the real output the harness checks flatness again, dumps()->loads() parses to the same statements, validate() accepts, and unrolling again changes neither statements nor text.",
         ref="DESIGN.md §6/C03",
         note=LANG_NOTE + "gphase operands are not constrained by the flatness predicate (inside gate bodies they are literal, lemma gphase_operands_literal). The parse-back, re-validate and fixpoint clauses involve the third-party openqasm3 printer/parser and are established on explored programs only (differential testing, labelled so). Three known findings (qubit-restricted gphase, empty if-block, xx_plus_yy emitting sxdg) are pinned by the repository's tests and replayed on every run."),
+    "C19": dict(engine="coq-lang",
+        technique="Coq theorems on the OpenQASM 2 layer (whitelist rejection, identical visit once whitelisted, line-level model of the declaration rewrite, to_qasm3 keeps every statement) + correspondence and print/re-load/convert oracles on real version-2 modules",
+        text="Theorems: a program with a top-level statement outside the OpenQASM 2 subset is rejected with ValidationError; a whitelisted version-2 program is visited exactly like a version-3 program (so it inherits every unrolling theorem); the declaration rewrite turns every qubit[n] x; / bit[n] x; line into qreg x[n]; / creg x[n]; and leaves every other line, the order and the line count untouched, is idempotent and leaves no version-3 declaration; to_qasm3 keeps every statement, only renaming the qelib1 include, and stays inside the subset. Tie: the visitor model vs real Qasm2Module on random version-2 programs (qelib1 gates, custom gates, measure ->, reset, barrier, if, broadcast, register names containing bit/qubit/reg/digits/underscores); on the real output: header 2.0, no qubit/bit declaration or measurement assignment printed, the text loads again as a version-2 module with the same circuit, to_qasm3(as_str=True/False) unrolls to the same circuit, the converted module is independent of the version-2 module, statements outside the subset are rejected.",
+        ref="DESIGN.md §6/C19",
+        note=LANG_NOTE + "Python's re and the openqasm3 printer are not modelled: the rewrite is modelled on lines already classified as declarations, and that the regular expressions implement that classification is established by the differential oracle on generated names only. 'to_qasm3 has the same unrolled circuit' is not a theorem (it needs a simulation modulo the include name); it is checked on every generated program. Known finding: gphase in unrolled version-2 output."),
+    "C20": dict(engine="coq-text",
+        technique="Coq theorem: the CLI's counting/skip/tag bookkeeping computes the set-theoretic verdict for every tree, argument list and skip list + process-level correspondence on materialised trees",
+        text="Theorems for every list of arguments (files and directories with arbitrary contents) and every --skip list: the exit status is non-zero exactly when some examined file (a .qasm file given directly or found under a given directory, not skipped, not ignore-tagged) fails loads()+validate(); the named files are exactly the failing examined files in discovery order; the 'nothing to check' shortcut can never hide a failure (every failing file is counted and not skipped); the pre-fix counting is refuted by a one-file tree. Tie: trees with nested, hidden and oddly named directories and files (.qasm.bak, upper-case extension, glob and markup characters, spaces), every content kind (valid, invalid, unparsable, tag before/after the header, version 2), files given twice and under a given directory, skips spelled as discovered / differently / unrelated, run as real `python -m pyqasm.cli.main validate` processes; exit status and named files compared with the model evaluated by coqc.",
+        ref="DESIGN.md §6/C20",
+        note="Trusted: Coq kernel + vm_compute; harness/check_c20.py (materialises trees under ${VERIF_SCRATCH:-/tmp}/verif-run-c20-*, removed at exit; reproduces os.walk's path strings; parses stdout); typer/rich process wiring; the per-file ground truth is loads()+validate() on the current tree. os.walk order, symlinks and encodings are outside the property."),
     "C02": dict(
         engine="coq-lang",
         technique="Coq theorems on the visitor model's operand resolution + exact correspondence with pyqasm on enumerated index/broadcast/alias/subroutine shapes",
@@ -130,6 +140,8 @@ m = {
          "kind_free_text": "Coq 8.16.1: symbolic cyclotomic-Laurent ring, reflection-based decision procedure with soundness theorem into R; model regenerated from maps.py by translator/maps2coq.py"},
         {"name": "coq-module", "path": "coq/Module", "serves_properties": [p for p in ORDER if p in CLAIMED and CLAIMED[p]["engine"] == "coq-module"],
          "kind_free_text": "Coq 8.16.1: abstract machine of the module API + pure transformation functions with theorems; correspondence by generated call histories evaluated with vm_compute against real pyqasm modules"},
+        {"name": "coq-text", "path": "coq/Text", "serves_properties": ["C20"],
+         "kind_free_text": "Coq 8.16.1: model of the validate CLI with the verdict theorem; correspondence by running the CLI as a process on generated trees"},
         {"name": "coq-lang", "path": "coq/Lang", "serves_properties": [p for p in ORDER if p in CLAIMED and CLAIMED[p]["engine"] == "coq-lang"],
          "kind_free_text": "Coq 8.16.1: executable model of the visitor (Unroll.v) with theorems; correspondence by generated case files evaluated with vm_compute against real pyqasm"},
     ],
